@@ -9,7 +9,6 @@ package c17t
 import (
 	"context"
 	"encoding/base64"
-	"errors"
 	"strings"
 	"testing"
 
@@ -19,28 +18,16 @@ import (
 	"github.com/openbao/openbao/v2/internal/builtin/logical/transit"
 )
 
-type faultStorage struct {
-	logical.Storage
-	count, failAt int
-}
-
-func (s *faultStorage) Put(ctx context.Context, e *logical.StorageEntry) error {
-	s.count++
-	if s.failAt > 0 && s.count == s.failAt {
-		return errors.New(c17core.InjectedPutError)
-	}
-	return s.Storage.Put(ctx, e)
-}
-
 type target struct {
 	b    logical.Backend
-	st   *faultStorage
+	st   logical.Storage // transactional: StartTxStorage in the handlers opens real transactions
+	fs   *c17core.FaultStore
 	ctx  context.Context
 	name string
 }
 
 func newTarget(useCache bool) c17core.Target {
-	st := &faultStorage{Storage: &logical.InmemStorage{}}
+	st, fs := c17core.NewFaultStorage()
 	conf := logical.TestBackendConfig()
 	sv := logical.TestSystemView()
 	sv.CachingDisabledVal = !useCache
@@ -50,7 +37,7 @@ func newTarget(useCache bool) c17core.Target {
 	if err != nil {
 		panic(err)
 	}
-	return &target{b: b, st: st, ctx: context.Background(), name: "k"}
+	return &target{b: b, st: st, fs: fs, ctx: context.Background(), name: "k"}
 }
 
 func (t *target) Close()              { t.b.Cleanup(t.ctx) }
@@ -58,7 +45,7 @@ func (t *target) SupportsNonce() bool { return false }
 
 // RawConfig: the endpoints offer no unguarded assignment.
 func (t *target) RawConfig(dec, enc int) (string, bool) { return "", false }
-func (t *target) FailPut(k int)       { t.st.failAt = k }
+func (t *target) FailPut(k int)       { t.fs.FailAt = k }
 
 // call performs one request; returns the response data and the canonical error class ("" = success).
 func (t *target) call(op logical.Operation, path string, data map[string]any) (d map[string]any, warnings []string, res string) {
@@ -81,8 +68,8 @@ func (t *target) call(op logical.Operation, path string, data map[string]any) (d
 }
 
 func (t *target) mutating(op logical.Operation, path string, data map[string]any) (map[string]any, []string, string) {
-	t.st.count = 0
-	defer func() { t.st.failAt = 0 }()
+	t.fs.Count = 0
+	defer func() { t.fs.FailAt = 0 }()
 	return t.call(op, path, data)
 }
 
